@@ -5,7 +5,8 @@ import vlib
 import codec_common as cc
 
 PFLAGS = {"P14-suffix": "bytes appended behind the packet change the value or are not handed back untouched",
-          "P14-nested": "bytes behind a nested container changed the nested value"}
+          "P14-nested": "bytes behind a nested container changed the nested value",
+          "P14-nested-tail": "bytes a nested container left unread, or the bytes that follow the container, were not handed on"}
 
 
 def run(chk):
@@ -13,7 +14,13 @@ def run(chk):
     binary = vlib.harness_build()
     thorough = chk.tier == "thorough"
     cases = cc.gen_c13(chk, "C14", thorough, workers=vlib.NCPU)
-    nested = [c for c in cc.gen_c13(chk, "C13", thorough, workers=8) if c["cls"] == "nested"]
+    nested = [c for c in cc.gen_c13(chk, "C13", thorough, workers=8) if c["cls"] in ("nested", "nestedtail")]
+    if thorough:
+        rm = vlib.tlc("codec/MC_Tagged.tla", workers=1, xmx="10g", env={"GEN_WHICH": "C14", "GEN_THOROUGH": "1", "GEN_BIG": "0"}, timeout=5000)
+        vlib.tlc_must_pass(rm, "MC_Tagged")
+        if rm.violated:
+            raise vlib.ToolError("the reference decoder violates %s" % rm.violated)
+        chk.add_tlc("MC_Tagged(C14): every suffix case a state; invariant PHolds on the reference decoder", rm)
     cases += nested
     rec = cc.run_cases(binary, cases, wd, "c14")
     flagged, n = cc.judge(chk, rec, wd, "c14", shard=2500)
